@@ -12,6 +12,7 @@ import (
 	"math/rand"
 	"os"
 	"strconv"
+	"strings"
 	"sync"
 	"testing"
 
@@ -118,6 +119,50 @@ func TestVerifLineWriter(t *testing.T) {
 	}
 	for i := 0; i < 300; i++ {
 		run([][]string{texts[rnd.Intn(len(texts))], texts[rnd.Intn(len(texts))], texts[rnd.Intn(len(texts))]})
+	}
+	// long lines: texts of one letter with lines of up to 200 000 characters, cut into chunks of
+	// many sizes (a child process's output arrives 32 KiB at a time). Logged by length: a chunk
+	// is the lengths of its segments between line breaks, a delivered line its length.
+	runLens := func(lineLens []int, chunk int, trailingNewline bool) {
+		var text []byte
+		for i, n := range lineLens {
+			text = append(text, []byte(strings.Repeat("x", n))...)
+			if i < len(lineLens)-1 || trailingNewline {
+				text = append(text, '\n')
+			}
+		}
+		ev := &lwEvents{}
+		w := newLineWriter(&label.Label{Package: "//", Name: "t"}, ev)
+		var chunks [][]int
+		func() {
+			defer func() {
+				if p := recover(); p != nil {
+					ev.lines = append(ev.lines, "panic:"+fmt.Sprint(p))
+				}
+			}()
+			for i := 0; i < len(text); i += chunk {
+				c := text[i:min(i+chunk, len(text))]
+				segs := []int{}
+				for _, part := range strings.Split(string(c), "\n") {
+					segs = append(segs, len(part))
+				}
+				chunks = append(chunks, segs)
+				w.Write(c)
+			}
+			w.Flush()
+		}()
+		printed := []int{}
+		for _, l := range ev.lines {
+			printed = append(printed, len(l))
+		}
+		batch = append(batch, map[string]any{"ev": "LineLens", "rounds": [][][]int{chunks}, "printed": printed})
+		flush(false)
+	}
+	for _, chunk := range []int{1 << 20, 32 << 10, 4096, 65536, 65537, 50000, 100000} {
+		for _, lens := range [][]int{{100000}, {65536}, {65535, 1}, {131072, 3}, {70000, 70000}, {3, 200000, 0, 5}, {65536, 65536}} {
+			runLens(lens, chunk, true)
+			runLens(lens, chunk, false)
+		}
 	}
 	flush(true)
 }
